@@ -151,31 +151,8 @@ def floors(tier):
 
 
 def check_ix_case(case, ctx):
-    """feature-interaction query (eqlmon/ix.py): flatten + nested an()/the() + concatenate + for_all + predicates in one query"""
-    from collections import Counter
     from .. import ix
-    c = case["ix"]
-    ctx.cls("cls:feature_interaction_query")
-    for t in ix.tags(c):
-        ctx.cls("cls:ix:" + t)
-    try:
-        gots, exp = ix.run(c, c["caching"], times=2)
-    except Exception as e:
-        import traceback
-        ctx.fail("EXC", f"ix: {type(e).__name__}: {e}\n{traceback.format_exc()[-600:]}")
-        return
-    n_all = sum(len(p["items"]) for p in c["world"]["parents"])
-    if 0 < len(set(exp)) and len(exp) < n_all * (6 if any(ix.uses_d(a) for a in c["atoms"]) else 1):
-        ctx.nontrivial()
-    for n, g in enumerate(gots):
-        same = Counter(g) == Counter(exp) if ix.all_selected(c) else set(g) == set(exp)
-        if not same:
-            kind = ("SET:" if set(g) != set(exp) else "MULTIPLICITY:") + ("missing" if set(exp) - set(g) else "") + ("+extra" if set(g) - set(exp) else "")
-            ctx.fail(kind, {"evaluation_no": n + 1, "query": {k: c[k] for k in ("c0", "c1", "atoms", "sel", "caching")},
-                            "missing": sorted(set(exp) - set(g))[:8], "extra": sorted(set(g) - set(exp))[:8],
-                            "n_expected": len(exp), "n_observed": len(g)})
-            break
-    ctx.sample({"feature_interaction": {k: c[k] for k in ("c0", "c1", "atoms", "sel")}, "expected_rows": len(exp), "observed_rows": len(gots[0])})
+    return ix.check(case["ix"], ctx)
 
 
 def cases(spec, ctx):
